@@ -185,6 +185,29 @@ void harness(void) {
 }
 #endif
 
+#ifdef H_http_new
+/* CurlAsyncRequest_new alone: fresh object (empty recycle list) or recycled object; curl_easy_init may fail */
+void harness(void) {
+	CurlAsyncRequest *t = NULL, *rcy = NULL; int res; size_t i; _Bool have_rc = nondet_bool(); unsigned rel = 0;
+	t3_setup(2);
+	if (have_rc) { rcy = t3_mk_transfer(0, &T2H(2)); rcy->len = nondet_size(); __CPROVER_assume(rcy->len <= rcy->cap); t3_rc[0] = rcy; t3_rc_len = 1; }
+	res = CurlAsyncRequest_new(&hc, &t);
+	REACH("CurlAsyncRequest_new returns");
+	for (i = 0; i < T2_QMAX; i++) rel += t2_released[i];
+	__CPROVER_assert(rel == ((have_rc && t3_rc_removes == 1) ? 1u : 0u) && IMPLIES(rel == 1, t2_released[2] == 1),
+			"new transfer object: the only request reference released is the stale one of a RECYCLED object (a fresh or half-built object holds none)");
+	if (res == KSI_OK) {
+		__CPROVER_assert(t != NULL && t->ref == 1 && t->client == &hc && t->reqCtx == NULL && t->len == 0 && t->errMsg[0] == 0 && t->len <= t->cap, "new transfer object ok: one reference, this client, no request yet, EMPTY receive buffer");
+		__CPROVER_assert(t->easyHandle != NULL && t3_idx(t->easyHandle) >= 0 && t3_state[t3_idx(t->easyHandle) < 0 ? 0 : t3_idx(t->easyHandle)] == T3_LIVE, "new transfer object ok: a live easy handle");
+		__CPROVER_assert(IMPLIES(t == rcy, t3_reset_calls[0] == 1), "a recycled easy handle is reset before it is used again");
+		REACH("ok"); if (t == rcy) REACH("recycled object reused");
+	} else {
+		__CPROVER_assert(t == NULL && (res == KSI_OUT_OF_MEMORY), "new transfer object failed: out of memory, nothing handed out");
+		REACH("failed");
+	}
+}
+#endif
+
 #ifdef H_http_dispatch
 void harness(void) {
 	int res; size_t i; int e; _Bool have_fl = nondet_bool(), have_rc = nondet_bool();
